@@ -103,6 +103,13 @@ def negating(prog, fn, calls):
         # result flows into xor / is_none / not
         for c2 in f.calls:
             if c2.name in ("xor", "is_none") and c2.args and any(o.kind == "call" and o.ref is c for o in f.trace_operand(c2.args[0])):
+                if c2.name == "is_none" and not f.is_closure:
+                    # `if sub.is_none() { return None }` is propagation, not negation: negating only if the is_none arm yields Some
+                    ba = bool_arms(f, c2)
+                    if ba is not None:
+                        region = f.reachable_from(ba["true"], stop=[ba["false"]])
+                        if not assigns_ret_variant(f, region, "Some"):
+                            continue
                 why.append("result of %s fed to Option::%s" % (c.name, c2.name))
         arms = option_arms(f, c)
         for nb in arms["none"]:
@@ -491,7 +498,9 @@ def skip_site(ctx, prog, fn, key, match_names, loop_head_names=("next",)):
         for c in cont:
             found += 1
             arms = bool_arms(f, c)
-            heads = [c2.bb for c2 in f.calls if c2.name in loop_head_names and "Iterator" in (c2.callee.get("trait") or "")]
+            # loop heads that enclose the test (the candidate loop of FindAllNodes); a loop that starts after the test — All/Any
+            # iterating their sub-matchers — is part of the guarded region
+            heads = [c2.bb for c2 in f.calls if c2.name in loop_head_names and "Iterator" in (c2.callee.get("trait") or "") and f.dominates(c2.bb, c.bb)]
             mcalls = [c2 for c2 in f.calls if c2.name in match_names]
             if arms is None and f.is_closure:
                 # iterator form: `.filter(|cand| kinds.contains(kind))…find_map(|cand| matcher.match_node(cand))` — the closure's result
